@@ -69,7 +69,12 @@ CallerExtCases ==
         n \in CallerLens}
     \cup {ADCase(In("custom", FLAG_UP, BN(3), GNone, GNone), "caller-ext")}
 
-MC_Cases == FlagCases \cup AcdCases \cup GridCases \cup ExtCases \cup CallerExtCases
+\* ... and one with many members: the first n of 24 present
+WideVal(n) == [nm \in {WideName(i) : i \in 1..24} |-> IF \E i \in 1..n : WideName(i) = nm THEN <<(CHOOSE i \in 1..n : WideName(i) = nm) + 20>> ELSE GNone]
+CallerWideCases ==
+    {ADCase(In("wide", FLAG_UP + FLAG_ED, BN(4), GNone, <<WideVal(n)>>), "caller-wide") : n \in {0, 1, 2, 14, 15, 16, 17, 22, 23, 24}}
+
+MC_Cases == FlagCases \cup AcdCases \cup GridCases \cup ExtCases \cup CallerExtCases \cup CallerWideCases
 
 (***************************************************************************)
 (* C07 on the model: the independent inverse recovers every input          *)
